@@ -34,7 +34,8 @@ class CbmcUnit:
     kind = "cbmc"
 
     def __init__(self, name, src, entries, defines=(), heap_max=64, opaque=(), race=False, threads=False,
-                 validate=True, extra_src=(), assumptions=(), stubs=(), native_defines=(), cbmc_flags=(), mem_unwind=None, object_bits=8, elem_unwind=6):
+                 validate=True, extra_src=(), assumptions=(), stubs=(), native_defines=(), cbmc_flags=(), mem_unwind=None, object_bits=8, elem_unwind=6, c_defines=()):
+        self.c_defines = list(c_defines)
         self.elem_unwind = elem_unwind
         self.object_bits = object_bits
         self.mem_unwind = mem_unwind if mem_unwind is not None else 18
@@ -141,7 +142,8 @@ class CbmcVariant:
         mod = llir.parse_file(ll)
         g = ll2c.CGen(mod, opaque=u.opaque, shared_race=u.race)
         entries = [n for n, f in mod.funcs.items() if n.startswith("vp_main") and not f.is_decl]
-        txt = g.generate(entries, mn)
+        callbacks = [n for n, f in mod.funcs.items() if n.startswith("vp_") and not n.startswith("vp_main") and not f.is_decl]   # harness callbacks called from models
+        txt = g.generate(entries + callbacks, mn)
         self.missing = [m for m in g.missing if not g.is_opaque_fn(m)]
         self.opaque_used = [m for m in g.missing if g.is_opaque_fn(m)] + \
                            [n for n in mod.funcs if g.is_opaque_fn(n) and not mod.funcs[n].is_decl]
@@ -161,6 +163,7 @@ class CbmcVariant:
             cdefs.append("-DVP_THREADS")
         if u.race:
             cdefs.append("-DVP_RACE")
+        cdefs += ["-D" + d for d in u.c_defines]
         self.gb = self.base + ".gb"
         self.gbw = self.base + "_w.gb"
         inc = ["-I", os.path.join(HERE, "models")]
